@@ -515,7 +515,7 @@ def _child(conn, task):
         conn.send(_solve(task))
     except BaseException as e:  # noqa
         try:
-            conn.send({"verdict": "error", "reason": f"{type(e).__name__}: {e}", "time_s": 0})
+            conn.send({"verdict": "error", "reason": f"{type(e).__name__}: {e}", "time_s": 0, "backend": "z3(error)"})
         except Exception:  # noqa
             pass
     finally:
@@ -544,17 +544,18 @@ def _run_guarded(tasks, procs):
                 try:
                     results[k] = pc.recv()
                 except EOFError:
-                    results[k] = {"verdict": "unknown", "reason": "solver process died", "time_s": 0}
+                    results[k] = {"verdict": "unknown", "reason": "solver process died", "time_s": 0, "backend": "z3(process died)"}
                 done.append(k)
             elif not pr.is_alive():
-                results[k] = {"verdict": "unknown", "reason": f"solver process exited with code {pr.exitcode}", "time_s": 0}
+                results[k] = {"verdict": "unknown", "reason": f"solver process exited with code {pr.exitcode}", "time_s": 0, "backend": "z3(process exited)"}
                 done.append(k)
             elif time.time() > deadline:
                 pr.terminate()
                 pr.join(2)
                 if pr.is_alive():
                     pr.kill()
-                results[k] = {"verdict": "unknown", "reason": "hard wall-clock limit exceeded (solver ignored its timeout); process killed", "time_s": round(2 * tasks[k][1] / 1000.0 + 20, 1)}
+                results[k] = {"verdict": "unknown", "reason": "hard wall-clock limit exceeded (solver ignored its timeout); process killed", "time_s": round(2 * tasks[k][1] / 1000.0 + 20, 1),
+                              "backend": "z3(killed)"}
                 done.append(k)
         for k in done:
             pr, pc, _ = running.pop(k)
